@@ -26,15 +26,44 @@ Definition table := list (string * list sk).
 Fixpoint lookup (f : string) (t : table) : option (list sk) :=
   match t with [] => None | (g, b) :: t' => if String.eqb f g then Some b else lookup f t' end.
 
-(** The discipline, as an abstract run over the set of locks held (names of receiver expressions; all mailbox locks
-    are one name, which is conservative: a goroutine never holds two of them):
+(** A LEAF lock: every acquisition of it is released by the very next synchronisation event of the same piece of
+    code (nothing that could block — no lock, no call into the table, no channel operation, no callback — happens
+    while it is held).  Whoever holds a leaf lock always releases it, so taking one while holding other locks
+    cannot close a waiting cycle. *)
+Fixpoint leaf_ev (o : string) (e : sk) : bool :=
+  let go := fix go (l : list sk) : bool :=
+    match l with
+    | [] => true
+    | x :: l' =>
+        match x with
+        | KLock o' | KRLock o' =>
+            if String.eqb o o'
+            then match l' with
+                 | (KUnlock o'' | KRUnlock o'') :: _ => String.eqb o o'' && go l'
+                 | _ => false
+                 end
+            else go l'
+        | _ => leaf_ev o x && go l'
+        end
+    end in
+  match e with
+  | KWith _ b | KLoop b | KDefer b => go b
+  | KAlt arms => (fix goa (a : list (list sk)) : bool := match a with [] => true | x :: a' => go x && goa a' end) arms
+  | KLock o' | KRLock o' => negb (String.eqb o o')      (* an acquisition not seen by [go]: only as a lone event *)
+  | _ => true
+  end.
+Definition is_leaf (tbl : table) (o : string) : bool :=
+  forallb (fun fb => leaf_ev o (KLoop (snd fb))) tbl.
+
+(** The discipline, as an abstract run over the locks held (names of receiver expressions; all mailbox locks are
+    one name, which is conservative: a goroutine never holds two of them):
     - a lock is acquired only while NO lock is held (so: never the lock already held — Go's mutexes are not
-      reentrant —, and no lock order to respect at all);
+      reentrant —, and no lock order to respect at all), unless it is a leaf lock, and never one already held;
     - no channel operation and no call of a caller-supplied callback while a lock is held — except the callback of
       withMailbox, whose body is run in place, and except a receive from a channel listed in [free] (the file
       store draws the serial number of a new message id from a buffered channel that a goroutine without any
       synchronisation of its own keeps filled; that receive happens under the bucket lock);
-    - an unlock releases the lock that is held; both arms of a branch, and a loop body, leave the same set;
+    - an unlock releases the lock acquired last; both arms of a branch, and a loop body, leave the same locks held;
     - a function returns (by any path, after its deferred calls) with what it was entered with.
     [st]: [None] = this path has ended (return/break/continue), [Some held] otherwise. *)
 Record ctx := mkCtx {
@@ -85,9 +114,12 @@ Section Walk.
             end in
         match e with
         | KLock o | KRLock o =>
-            match h with [] => Some (Some [o], dfr, rets) | _ => None end
+            match h with
+            | [] => Some (Some [o], dfr, rets)
+            | _ => if is_leaf tbl o && negb (existsb (String.eqb o) h) then Some (Some (o :: h), dfr, rets) else None
+            end
         | KUnlock o | KRUnlock o =>
-            match h with [o'] => if String.eqb o o' then Some (Some [], dfr, rets) else None | _ => None end
+            match h with o' :: h' => if String.eqb o o' then Some (Some h', dfr, rets) else None | [] => None end
         | KWith _ body =>
             match lookup "Store.withMailbox" tbl with
             | Some wm => match run_fn fuel' (Some body) h wm with Some h' => Some (Some h', dfr, rets) | None => None end
@@ -194,3 +226,33 @@ Fixpoint with_bodies_ev (e : sk) : list (list sk) :=
   end.
 Definition points_under_mailbox_lock (tbl : table) : list (string * string) :=
   flat_map (fun fb => map (fun p => (fst fb, p)) (flat_map (flat_map points_ev) (flat_map with_bodies_ev (snd fb)))) tbl.
+
+(** The skeleton of a function with every call into the table and every withMailbox replaced by what it runs
+    (fuel: nesting depth) — the shape that matters for the correspondence with the model, whose program counters
+    follow an operation through the helpers it calls; extracting or inlining a helper does not change it. *)
+Section Expand.
+  Variable tbl : table.
+  Fixpoint expand (fuel : nat) (cb : option (list sk)) (l : list sk) {struct fuel} : list sk :=
+    match fuel with
+    | O => l
+    | S fuel' =>
+      let fix ev (e : sk) {struct e} : list sk :=
+        let go := fix go (l : list sk) : list sk := match l with [] => [] | x :: l' => (ev x ++ go l')%list end in
+        match e with
+        | KCall f => match lookup f tbl with Some b => expand fuel' None b | None => [e] end
+        | KWith mode body =>
+            match lookup "Store.withMailbox" tbl with
+            | Some wm => [KWith mode (expand fuel' (Some (go body)) wm)]
+            | None => [KWith mode (go body)]
+            end
+        | KCallback _ => match cb with Some b => b | None => [e] end
+        | KAlt arms => [KAlt ((fix goa (a : list (list sk)) : list (list sk) := match a with [] => [] | x :: a' => go x :: goa a' end) arms)]
+        | KLoop b => [KLoop (go b)]
+        | KDefer b => [KDefer (go b)]
+        | _ => [e]
+        end in
+      (fix go (l : list sk) : list sk := match l with [] => [] | x :: l' => (ev x ++ go l')%list end) l
+    end.
+End Expand.
+Definition expanded (tbl : table) (f : string) : option (list sk) :=
+  match lookup f tbl with Some b => Some (expand tbl (S (List.length tbl)) None b) | None => None end.
